@@ -128,7 +128,7 @@ template <class V>
 static long vec_reader_op(const V &c, const V &mine, unsigned op, unsigned arg) {
   typedef typename V::value_type T;
   long acc = 0;
-  switch (op % 14) {
+  switch (op % 15) {
     case 0: acc = (long)c.size() + (long)c.capacity() + (c.empty() ? 1 : 0) + (long)c.max_size() % 7; break;
     case 1: for (typename V::const_iterator it = c.begin(); it != c.end(); ++it) acc += key_of(*it); break;
     case 2: for (typename V::const_reverse_iterator it = c.rbegin(); it != c.rend(); ++it) acc += pad_of(*it); break;
@@ -142,6 +142,7 @@ static long vec_reader_op(const V &c, const V &mine, unsigned op, unsigned arg) 
     case 10: { std::vector<T> copy(c.cbegin(), c.cend()); acc = (long)copy.size(); } break;
     case 11: { V copy(c, c.get_allocator()); acc = (long)copy.size(); } break;                    // allocator-extended copy
     case 12: { V other(mine); if (other.size() + c.size() <= other.max_size()) other.insert(other.begin(), c.begin(), c.end()); other.assign(c.begin(), c.end()); acc = (long)other.size(); } break;
+    case 13: try { acc = key_of(c.at((typename V::size_type)(c.size() + arg % 3))); } catch (const std::out_of_range &) { acc = -1; } break;  // the failing path of at()
     default: acc = (long)(c.cend() - c.cbegin()) + (long)(c.crend() - c.crbegin()); break;
   }
   return acc;
@@ -200,6 +201,10 @@ static long set_reader_op(const S &c, const S &mine, unsigned op, unsigned arg, 
   return acc;
 }
 template <class S>
+static long flat_at_oor(const S &c, unsigned arg) {
+  try { return key_of(c.at((typename S::size_type)(c.size() + arg % 2))); } catch (const std::out_of_range &) { return -1; }
+}
+template <class S>
 static long flat_extra_op(const S &c, unsigned arg) {
   typedef typename S::value_type T;
   T k((int)(arg % (unsigned)g_keyDom));
@@ -252,6 +257,24 @@ static void footprint_set(const S &c, Footprint &f) {
   for (typename S::const_iterator it = c.begin(); it != c.end(); ++it) f.add(&*it, sizeof(typename S::value_type));
 }
 
+// bring a private container into another internal state with the same contents: grow it well beyond any inline capacity, then shrink
+// it back by erasing what was added (a SmallSet stays in its large state, a SmallVector keeps its heap buffer)
+template <class C>
+static auto other_state(C &c) -> decltype(c.push_back(typename C::value_type(0)), void()) {
+  typedef typename C::value_type T;
+  size_t n = (size_t)c.size();
+  if (n + 12 > (size_t)c.max_size()) return;
+  for (int i = 0; i < 12; ++i) c.push_back(T(1000 + i));
+  while ((size_t)c.size() > n) c.pop_back();
+}
+template <class C>
+static auto other_state(C &c) -> decltype(c.insert(typename C::value_type(0)), void()) {
+  typedef typename C::value_type T;
+  if ((size_t)c.size() + 12 > (size_t)c.max_size()) return;
+  for (int i = 0; i < 12; ++i) c.insert(T(100000 + i));
+  for (int i = 0; i < 12; ++i) c.erase(T(100000 + i));
+}
+
 struct RunResult {
   unsigned ops;
   bool bytesChanged;
@@ -278,6 +301,7 @@ static RunResult run_threads(uint64_t seed, const C &shared, ReaderFn readerOp, 
     threads.emplace_back([&, i]() {
       C mine(shared);  // thread-private containers (copy-construction from the shared one is itself a const operation)
       C mine2;
+      if ((scripts[i][0].first >> 20) & 1) other_state(mine);  // same contents, another internal state (e.g. a SmallSet that has been large)
       long acc = 0;
       const std::vector<std::pair<unsigned, unsigned>> &sc = scripts[i];
       for (size_t k = 0; k < sc.size(); ++k) {
